@@ -154,7 +154,9 @@ fn gen_lexicon(rng: &mut Rng, nid: i64) -> (Lexicon, Vec<String>) {
     let mut lex = Lexicon::default();
     // (the last ones: words of 11-30 bytes made of 1- and 2-byte characters with the terminator late in the word)
     let base = ["あい", "うえ", "東京", "都", "です", "と", "A", "1", "モーニング娘。", "な。な", "Yahoo!", "。", "！", "?", "。」", "い。", "」x", "…と", "a.b", "<br>", "・・", "OK!", "a?", "x.", "ﾅ!", "1。",
-        "EverybodyWantsSome!!", "Supercalifragilistic!Expo", "Здравствуйте!Мир", "abcdefghijklmnopqrstuvwxyz12.3", "ääääääääääää?ä"];
+        "EverybodyWantsSome!!", "Supercalifragilistic!Expo", "Здравствуйте!Мир", "abcdefghijklmnopqrstuvwxyz12.3", "ääääääääääää?ä",
+        // words that go on for more than 30 bytes after the terminator they contain
+        "モーニング娘。コンサートツアー二〇〇三春", "Yahoo!JapanCorporationHeadquartersBuildingTokyo", "東京！大阪名古屋福岡札幌仙台広島京都神戸"];
     for (i, w) in base.iter().enumerate() {
         if i < 3 || rng.chance(1, 2) {
             lex.entries.push(Entry::simple(w, rng.range(0, nid - 1) as i16, rng.range(0, nid - 1) as i16, rng.range(0, 5000) as i16, &pool[i % pool.len()]));
@@ -191,6 +193,18 @@ fn gen_users(rng: &mut Rng, nid: i64, sys: &mut Lexicon, words: &mut Vec<String>
 
 fn gen_text(rng: &mut Rng, words: &[String], max_parts: usize) -> String {
     let mut s = String::new();
+    if rng.chance(1, 12) {
+        // texts whose only terminators are middle-dot ellipses (three or more '・'): no other terminator, dot or tag anywhere
+        for _ in 0..1 + rng.below(max_parts.max(1)) {
+            match rng.below(5) {
+                0 | 1 => s.push_str(rng.s(&["あい", "うえお", "東京", "です", "ABC", "x", "12", "京", "かきく", "そうですか", "わかりました"])),
+                2 => s.push_str(rng.s(&["・・・", "・・・・", "・・・・・・"])),
+                3 => s.push_str(rng.s(&["・", "・・", "と", "、", "の"])),
+                _ => s.push_str(rng.s(&["「", "」", "（", "）", "や", " "])),
+            }
+        }
+        return s;
+    }
     for _ in 0..rng.below(max_parts + 1) {
         match rng.below(16) {
             0..=3 => s.push_str(rng.s(&["あい", "うえお", "東京", "です", "ABC", "x", "12", "京", "かきく", " "])),
